@@ -2,7 +2,11 @@
 
 
 def register(reg):
-    fn, loop, pred = reg.fn, reg.loop, reg.pred
+    loop, pred = reg.loop, reg.pred
+
+    def fn(q, **kw):
+        kw.setdefault("nla", "uf")
+        return reg.fn(q, **kw)
     reg.ghost_fields["owner"] = "ref?:$N"     # owner(list) = the node whose reward list it is (ghost back-pointer)
 
     # ---- what a freshly constructed node looks like (postcondition of make_children / Partition.__init__, C06)
